@@ -49,7 +49,7 @@ def run(tier):
             nocase = fam == "ascii" and ci % 4 == 0
             cases.append(dict(w, writes=[{"k": h["k"], "v": h["v"], "fault": h["fault"], "alt": nocase and rng.random() < 0.5} for h in s],
                               readers=[{"loader": ("skiplist" if nocase else rng.choice(sstrun.LOADERS)), "rbuf": rng.choice([16, 4096]), "hash": "load"}],
-                              probes=[0, 1, 2, 3], ranges=[[0, 3]], cmp="nocase" if nocase else ""))
+                              probes=[0, 1, 2, 3], ranges=[[0, 3]], cmp="nocase" if nocase else ("mag" if ci % 4 == 1 else "")))
         batches.append(("%s-%d" % (fam, bi), keys, vals, cases))
     total = sstrun.run_batches(o, binary, batches, "C15")
     o.evaluations = total
